@@ -266,6 +266,9 @@ K("O07.4w", ["C07", "C08"], "lexer", "c07_is_whitespace", functions=["is_whitesp
 # overflow, unimplemented!, debug_assert; Verus checks every overflow / index / unwrap precondition, and
 # panic! sites become `requires false` calls) and termination (Kani unwinding assertions; Verus decreases)
 # ---------------------------------------------------------------------------------------------
+for _c in ("ident", "comma", "close", "other", "eof"):
+  K("O05.2b." + _c, ["C05"], "parser", "c05_params_progress_" + _c, needs_fmt_stub=True, termination=True, functions=["Parser::parse_function_expr"],
+    desc="the parameter loop over the five token classes it can tell apart (first token after `functie (` of class `%s`, second symbolic): consumes a token per iteration or fails with a SyntaxError; a loop that stops consuming input fails the unwinding bound, which for this obligation is a violation (termination)" % _c)
 K("O05.2a", ["C05"], "parser", "c05_function_params_progress", needs_fmt_stub=True, termination=True, functions=["Parser::parse_function_expr"],
   desc="modular (advance feeds tokens from a ghost queue): for every 2-token continuation of `functie (` the parameter loop consumes a token per iteration or fails with a SyntaxError; never spins")
 
